@@ -127,6 +127,25 @@ pub fn corpus(tier: &str) -> Corpus {
             c.lines.push(format!("next\tcheck($Q) ;; check(1)\tcheck($X) :- {}, {}.", alias, b));
         }
     }
+    // scale: the sizes at which an inline buffer, a bit mask or a small counter overflows
+    for n in if thorough { vec![5usize, 9, 17, 33, 65] } else { vec![9usize, 17] } {
+        let ints: Vec<String> = (1..=n).map(|i| i.to_string()).collect();
+        let vars: Vec<String> = (1..=n).map(|i| format!("$V{}", i)).collect();
+        let facts: Vec<String> = (1..=n).map(|i| format!("t({}).", i)).collect();
+        let goals: Vec<String> = (1..=n).map(|i| if i == n / 2 { "!".to_string() } else { format!("t($Y{})", i) }).collect();
+        c.queries += 6;
+        c.with_cut += 1;
+        *c.families.entry("scale".into()).or_insert(0) += 1;
+        c.lines.push(format!(
+            "next\tw({ints}) ;; w({vars}) ;; len([{ints}], $N) ;; p($Z) ;; app($X, $Y, [{few}]) ;; cutk($Z)\tw({vars}).\tlen([], 0).\tlen([$_ | $T], $N) :- len($T, $M), $N = $M + 1.\tapp([], $L, $L).\tapp([$H | $T], $L, [$H | $R]) :- app($T, $L, $R).\t{facts}\tp($X) :- t($X), $X >= {n}.\tcutk($X) :- {goals}, t($X).\tcutk(0).",
+            ints = ints.join(", "),
+            vars = vars.join(", "),
+            few = ints.iter().take(5).cloned().collect::<Vec<_>>().join(", "),
+            facts = facts.join("\t"),
+            n = n,
+            goals = goals.join(", ")
+        ));
+    }
     // timer histories: the timer thread fires in the middle of a search, then further queries run
     let follow: Vec<(&str, Vec<&str>)> = vec![
         ("p($Z)", vec!["q(a).", "q(b).", "p($X) :- q($X)."]),
